@@ -99,6 +99,52 @@ def l1_let_bind(it, fn):
     return n
 
 
+def g1_guard_continue(it, fn, n):
+    """G1: inside loop n of fn, a top-level `if C { continue; }` followed by REST becomes `if C { } else { REST }`
+    (Verus `for` loops do not support `continue`; the two forms are the same control flow).  Applied only when the
+    `if` block holds nothing but `continue;`."""
+    count = 0
+    while True:
+        s = it.buf.text
+        mask = code_mask(s)
+        _, lbo, lbc = it.loop_span(fn, n)
+        hit = None
+        for m in re.finditer(r"\bif\b", s):
+            if not (lbo < m.start() < lbc and mask[m.start()]):
+                continue
+            # top level of the loop body?
+            depth = 0
+            for k in range(lbo + 1, m.start()):
+                if mask[k]:
+                    depth += s[k] in "{([" 
+                    depth -= s[k] in "})]"
+            if depth != 0:
+                continue
+            j = m.end()
+            d = 0
+            while j < lbc:
+                if mask[j]:
+                    if s[j] in "([": d += 1
+                    elif s[j] in ")]": d -= 1
+                    elif s[j] == "{" and d == 0: break
+                j += 1
+            k = match_close(s, mask, j)
+            inner = "".join(c for c, mk in zip(s[j + 1:k], mask[j + 1:k]) if mk).strip()
+            if inner == "continue;":
+                hit = (m, j, k)
+                break
+        if not hit:
+            break
+        m, j, k = hit
+        l, _ = it.buf.pos(m.start())
+        it.rules_applied.append({"rule": "G1", "file": it.relpath, "line": it._repo_line(l), "from": re.sub(r"\s+", " ", s[m.start():k + 1]), "to": "if C { } else { <rest of loop body> }"})
+        # close the else before the loop body's closing brace, then rewrite the if block (back to front)
+        it.buf.replace_span(lbc, lbc + 1, "}\n}", ("rule", "G1"))
+        it.buf.replace_span(j, k + 1, "{\n} else {", ("rule", "G1"))
+        count += 1
+    return count
+
+
 def build(u):
     for x in ["use vstd::utf8::*;", "use vstd::string::StringSliceAdditionalSpecFns;", "use vstd::slice::SliceIndexSpec;",
               "use std::borrow::Cow;", "use std::sync::{Arc, Mutex, atomic::AtomicBool};", "use std::ops::Index;", "use std::slice::SliceIndex;"]:
@@ -119,6 +165,7 @@ def build(u):
     s.rule("D3", r"String::with_capacity\(max_len\)", "String::new()")
     s.rule("D2", r"[ \t]*#\[allow\(clippy::manual_clamp\)\]\n", "")
     f1_name_for_iter(s, "source")
+    u.g1_sites = g1_guard_continue(s, "source", 1)
     u.l1_sites = l1_let_bind(s, "source")
     s.sig("source", [
         ("source.requires", "contract", "requires self.dom_ok()"),
